@@ -7,6 +7,7 @@ from .prune import is_call
 
 LEVEL = 'other'
 RULES = {
+    'C06.R10': 'distillation driver: every composition without pruning (compose::<false, _>) is followed, on every path to the next layer or the return, by infeasible_elimination on the same tree (the nodes of the last neuron are checked too)',
     'C06.R9': 'the path polytope handed to the LP is the conjunction of the path conditions (shared with C09.R1)',
     'C06.R8': 'the links, leaf flags and node set this property reads are what the arena mutators maintain as their effect contracts say (shared with C12.R2)',
     'C06.R7': helpers.RULE_TEXT,
@@ -17,7 +18,7 @@ RULES = {
     'C06.R4': 'the cached-state arms perform no mutation of the tree (a second run changes nothing)',
     'C06.R6': 'no function of the elimination (infeasible_elimination and the AffTree methods it reaches) resets a stored verdict to Indeterminate or borrows it mutably',
 }
-FLOORS = {'C06.R9': 5, 'C06.R8': 15, 'C06.R7': 8, 'C06.R1': 4, 'C06.R2': 3, 'C06.R3': 1, 'C06.R4': 2, 'C06.R5': 12, 'C06.R6': 4}
+FLOORS = {'C06.R9': 5, 'C06.R8': 15, 'C06.R7': 8, 'C06.R1': 4, 'C06.R2': 5, 'C06.R10': 4, 'C06.R3': 1, 'C06.R4': 2, 'C06.R5': 12, 'C06.R6': 4}
 EXPLANATION = 'Must-classify / must-remove / must-forward path rules over the traversal loop of infeasible_elimination.'
 DOES_NOT_DECIDE = 'emptiness itself (the LP answer, C10); terminal-count bounds for distilled networks'
 CACHED = {'Infeasible', 'Feasible', 'FeasibleWitness'}
@@ -36,6 +37,52 @@ def shared_cache_rules(ctx):
     for i in sub.insts:
         i.rule = 'C06.R5'
         ctx.insts.append(i)
+
+
+def driver_eliminates(ctx):
+    """C06.R10: the distilled tree is as pruned as the statement says only if the driver runs the elimination after the composition
+    that added nodes (not before it, not only in some arms)."""
+    F = ctx.facts
+    b = ctx.body('C06.R10', 'afftree_from_layers_generic')
+    if b is None:
+        return
+    R = Resolver(b)
+    cfg = b.cfg()
+    Q = b.qname
+    adt = F.adt('Layer')
+    variants = set(v['name'] for v in adt['variants']) if adt else set()
+    comps = list(b.calls_to('AffTree::compose'))
+    elims = list(b.calls_to('AffTree::infeasible_elimination'))
+    ends = set(bb for bb, _ in comps)
+    for bb, t in b.calls():
+        if Callee(t['func']).name == 'next' and t.get('target') is not None and cfg.reaches(t['target'], bb):
+            ends.add(bb)
+    for bb, bl in b.live_blocks():
+        if bl['term']['k'] == 'return':
+            ends.add(bb)
+    n = 0
+    for bb, t in comps:
+        ga = Callee(t['func']).generic_args
+        if len(ga) < 3 or ga[1] not in ('true', 'false'):
+            ctx.undecided('C06.R10', Q + '#compose', 'pruning flag of a compose call is not a constant', t['span'])
+            continue
+        if ga[1] == 'true':
+            continue
+        arm = [l for l in literals(b, R, bb) if l[0] == 'is' and len(l[2]) == 1 and list(l[2])[0] in variants]
+        site = '%s#eliminate-after:%s' % (Q, list(arm[0][2])[0] if arm else 'compose%d' % n)
+        n += 1
+        recv = s(R.call_args(bb)[0])
+        same = [eb for eb, _ in elims if s(R.call_args(eb)[0]) == recv]
+        if t.get('target') is None:
+            continue
+        escapes = [e for e in ends if cfg.reaches(t['target'], e, avoid=same)]
+        if escapes:
+            ctx.bad('C06.R10', site, 'after this composition without pruning the iteration can end (or the next composition start) without infeasible_elimination on the '
+                    'tree being built: the nodes it added are never checked', t['span'])
+        else:
+            ctx.ok('C06.R10', site, 'infeasible_elimination on the same tree on every path before the next layer', t['span'])
+    if n == 0:
+        ctx.lost('C06.R10', 'compose::<false, _> calls in afftree_from_layers_generic')
 
 
 def no_downgrade(ctx):
@@ -93,6 +140,9 @@ def run(ctx):
     helpers.share_arena_contracts(ctx, 'C06.R8')
     shared_cache_rules(ctx)
     no_downgrade(ctx)
+    driver_eliminates(ctx)
+    # the subtree of a node is left unclassified only when the node is Infeasible (same instances as C03.R4)
+    helpers.share_from(ctx, 'c03', 'C06.R2', ['AffTree::infeasible_elimination#skip_subtree:'])
     b = ctx.body('C06.R1', 'AffTree::infeasible_elimination')
     if b is None:
         return
